@@ -269,6 +269,186 @@ func hasOverflowingNumber(code string, module bool) bool {
 	return false
 }
 
+// ---- known finding C13-escaped-identifier-glued-to-keyword
+//
+// With charset=ascii a non-BMP code point in an identifier is printed as `\u{10000}`; with
+// minify-whitespace the printer decides whether a space is needed before a following keyword by
+// looking at the last character written, and `}` is not an identifier character: `\u{10000}in y`,
+// `export{\u{10000}as x}from"p"`, `import \u{10000}from"p"`. The keyword becomes part of the name.
+// The signature is an output repair: put the space back after every `\u{…}` that is directly
+// followed by one of the five keywords that can follow an identifier; the case matches only if the
+// repaired output is valid (so any other cause of an invalid output is still a violation).
+var gluedEscape = regexp.MustCompile(`(\\u\{[0-9A-Fa-f]+\})(as|from|in|instanceof|of)\b`)
+
+func ungluedIdentifierEscapes(out string) (string, bool) {
+	if !gluedEscape.MatchString(out) {
+		return "", false
+	}
+	return gluedEscape.ReplaceAllString(out, "$1 $2"), true
+}
+
+// ---- known finding C13-import-conditional-dead-branch
+
+// hasImportOfConditional: an `import()` whose (unparenthesised) argument is a conditional expression.
+func hasImportOfConditional(code string, module bool) bool {
+	p, err := jsref.Parse(code, jsref.Options{Module: module})
+	if err != nil {
+		return false
+	}
+	found := false
+	jsutil.Walk(p.Body, func(n *jsref.Node) {
+		if n.Type == jsref.NImportCall {
+			if a := unparen(n.A); a != nil && a.Type == jsref.NCond {
+				found = true
+			}
+		}
+	})
+	return found
+}
+
+// onlyDeadImportsBecameNull: the token streams of the two outputs are identical except that one or
+// more `import ( <string> )` of the first are the single token `null` in the second.
+func onlyDeadImportsBecameNull(out, out2 string, module bool) bool {
+	a, err1 := jsref.Tokenize(out, jsref.Options{Module: module})
+	b, err2 := jsref.Tokenize(out2, jsref.Options{Module: module})
+	if err1 != nil || err2 != nil {
+		return false
+	}
+	i, j, n := 0, 0, 0
+	for i < len(a) && j < len(b) {
+		if a[i].Kind == b[j].Kind && a[i].Raw == b[j].Raw {
+			i++
+			j++
+			continue
+		}
+		if b[j].Raw == "null" && i+3 < len(a) && a[i].Raw == "import" && a[i+1].Raw == "(" && a[i+2].Kind == jsref.TString && a[i+3].Raw == ")" {
+			i += 4
+			j++
+			n++
+			continue
+		}
+		return false
+	}
+	return i == len(a) && j == len(b) && n > 0
+}
+
+// ---- known finding C13-with-var-renamed
+
+// bindingNames appends the names bound by a binding target.
+func bindingNames(t *jsref.Node, out map[string]bool) {
+	if t == nil {
+		return
+	}
+	switch t.Type {
+	case jsref.NIdent:
+		out[t.Name] = true
+	case jsref.NAssign, jsref.NSpread, jsref.NParen:
+		bindingNames(t.A, out)
+	case jsref.NArray:
+		for _, e := range t.List {
+			bindingNames(e, out)
+		}
+	case jsref.NObject:
+		for _, e := range t.List {
+			if e != nil && e.Type == jsref.NProperty {
+				bindingNames(e.B, out)
+			} else {
+				bindingNames(e, out)
+			}
+		}
+	}
+}
+
+// varNamesInsideWith returns the names that a `var` declaration (or a block-level function
+// declaration, which sloppy code hoists like a var) declares inside the body of a `with` statement
+// without an intervening function boundary.
+func varNamesInsideWith(code string) map[string]bool {
+	names := map[string]bool{}
+	p, err := jsref.Parse(code, jsref.Options{})
+	if err != nil {
+		return names
+	}
+	var walk func(n *jsref.Node, inWith, top bool)
+	walk = func(n *jsref.Node, inWith, top bool) {
+		if n == nil {
+			return
+		}
+		switch n.Type {
+		case jsref.NFunctionDecl:
+			if inWith && !top && n.A != nil {
+				names[n.A.Name] = true
+			}
+			for _, c := range n.List {
+				walk(c, false, false)
+			}
+			walk(n.B, false, true)
+			return
+		case jsref.NFunctionExpr, jsref.NArrow, jsref.NClassDecl, jsref.NClassExpr, jsref.NStaticBlock:
+			inWith = false
+		case jsref.NVarDecl:
+			if inWith && n.Name == "var" {
+				for _, d := range n.List {
+					if d != nil {
+						bindingNames(d.A, names)
+					}
+				}
+			}
+		case jsref.NWith:
+			walk(n.A, inWith, false)
+			walk(n.B, true, false)
+			return
+		}
+		walk(n.A, inWith, false)
+		walk(n.B, inWith, false)
+		walk(n.C, inWith, false)
+		walk(n.D, inWith, false)
+		for _, c := range n.List {
+			walk(c, inWith, false)
+		}
+	}
+	walk(p.Body, false, true)
+	return names
+}
+
+func isNameWithDigits(id string, names map[string]bool) string {
+	base := strings.TrimRight(id, "0123456789")
+	for k := len(base); k <= len(id); k++ {
+		if names[id[:k]] {
+			return id[:k]
+		}
+	}
+	return ""
+}
+
+// onlyWithVarsRenamed: the two outputs have the same token stream except for identifier tokens, and
+// every identifier that differs is, in both outputs, one of `names` followed by digits (the renamer
+// appended another number to a variable that a `with` body declares).
+func onlyWithVarsRenamed(out, out2 string, names map[string]bool) bool {
+	if len(names) == 0 {
+		return false
+	}
+	a, err1 := jsref.Tokenize(out, jsref.Options{})
+	b, err2 := jsref.Tokenize(out2, jsref.Options{})
+	if err1 != nil || err2 != nil || len(a) != len(b) {
+		return false
+	}
+	n := 0
+	for i := range a {
+		if a[i].Kind == b[i].Kind && a[i].Raw == b[i].Raw {
+			continue
+		}
+		if a[i].Kind != jsref.TIdent || b[i].Kind != jsref.TIdent {
+			return false
+		}
+		na, nb := isNameWithDigits(a[i].Ident, names), isNameWithDigits(b[i].Ident, names)
+		if na == "" || na != nb {
+			return false
+		}
+		n++
+	}
+	return n > 0
+}
+
 // esbuild decides between script and module by the presence of ESM syntax; a module-goal case without
 // any import/export would be ambiguous, so it gets an empty export list.
 func markModule(c *Case) {
@@ -297,7 +477,7 @@ func judge(c Case) vdrv.Verdict {
 		switch {
 		case c.Goal == "script" && isTopLevelAwaitIdentifier(c.Code):
 			v.Known = "C13-script-await-identifier"
-		case hasDisguisedUseStrict(c.Code, c.Goal == "module") && strings.Contains(fmtMsgs(r.Errors), "strict mode"):
+		case hasDisguisedUseStrict(c.Code, c.Goal == "module") && (strings.Contains(fmtMsgs(r.Errors), "strict mode") || strings.Contains(fmtMsgs(r.Errors), "\"use strict\" directive")):
 			v.Known = "C13-use-strict-parenthesized-or-escaped"
 		case hasLegacyDecimalWithFraction(c.Code):
 			v.Known = "C13-legacy-decimal-fraction"
@@ -354,8 +534,13 @@ func judge(c Case) vdrv.Verdict {
 			cls = append(cls, "fixed-point-after-comment-normalisation")
 		} else if a != b {
 			v := vdrv.Fail("default output is not a fixed point (comments ignored)", out, out2)
-			if hasOverflowingNumber(c.Code, c.Goal == "module") && strings.Contains(out, "Infinity") {
+			switch {
+			case hasOverflowingNumber(c.Code, c.Goal == "module") && strings.Contains(out, "Infinity"):
 				v.Known = "C13-infinity-literal-statement"
+			case hasImportOfConditional(c.Code, c.Goal == "module") && onlyDeadImportsBecameNull(out, out2, c.Goal == "module"):
+				v.Known = "C13-import-conditional-dead-branch"
+			case c.Goal == "script" && onlyWithVarsRenamed(out, out2, varNamesInsideWith(c.Code)):
+				v.Known = "C13-with-var-renamed"
 			}
 			return v
 		}
@@ -402,7 +587,14 @@ func judge(c Case) vdrv.Verdict {
 			}
 			if !ok {
 				v := vdrv.Fail(fmt.Sprintf("output for format=%q minify-whitespace=%v ascii=%v is not valid (%s): %s", c.Format, c.MinifyWS, c.ASCII, goal, why), "valid", string(rv.Code))
-				if c.Format == "esm" && c.Goal == "script" {
+				if fixed, glued := ungluedIdentifierEscapes(string(rv.Code)); glued && c.ASCII && c.MinifyWS {
+					// known finding C13-escaped-identifier-glued-to-keyword: the output is valid once the space
+					// after the `\u{…}` escape that ends an identifier is put back
+					if ok2, _, err := v8Parses(wrap(fixed), goal); err == nil && ok2 {
+						v.Known = "C13-escaped-identifier-glued-to-keyword"
+					}
+				}
+				if v.Known == "" && c.Format == "esm" && c.Goal == "script" {
 					// known finding C13-esm-not-a-module: a script that is not valid *module* code (sloppy-only
 					// constructs, `await` as an identifier) is converted to ESM without a diagnostic.
 					// Signature: V8 rejects the input text itself when parsed with the module goal.
